@@ -78,7 +78,7 @@ Proof.
     apply N.eqb_eq in C2. apply andb_true_iff in C3. destruct C3 as [C3 C5]. apply andb_true_iff in C3. destruct C3 as [C3 C4].
     apply negb_true_iff in C4. split; [unfold prim, F; auto |]. split.
     + destruct (kget s T p0) eqn:Ek; try discriminate. pose proof (l_locked _ _ L _ _ Ek) as El.
-      pose proof (a_lam _ _ A _ _ El). apply orb_true_iff in C1. destruct C1 as [C1 | C1]; apply N.eqb_eq in C1; congruence.
+      apply andb_true_iff in C1. destruct C1 as [C1 _]. apply N.eqb_eq in C1. congruence.
     + intros k. split.
       * intros Hk. split; [eapply subset_In; eauto |]. intros ->. apply mem_false in C4. contradiction.
       * intros [Hk Hne]. rewrite forallb_forall in C5. specialize (C5 k Hk). apply orb_true_iff in C5.
